@@ -55,6 +55,8 @@ SPEC = {
         'AITB.FLP.mdpFlatRows_sat_iff',
         'AITB.FLP.mdpLP_same_feasible',
         'AITB.FLP.mdpLP_sound_flat',
+        'AITB.FLP.factoredLP_same_optimum',
+        'AITB.FLP.mdpLP_same_optimum',
         'AITB.FLP.dense_of_clean',
         'AITB.FLP.genLoop_clean',
         'AITB.FLP.flpGen_clean',
